@@ -45,6 +45,8 @@ namespace occa {
       keyProps["compiler_shared_flags"] = props["compiler_shared_flags"];
       keyProps["include_occa"]          = props["include_occa"];
       keyProps["link_occa"]             = props["link_occa"];
+      // Every okl setting shapes the translated source (enabled, include_paths, restrict, ...)
+      keyProps["okl"]                   = props["okl"];
       keyProps["okl_enabled"]           = props.get("okl/enabled", true);
       return occa::hash(keyProps);
     }
